@@ -820,7 +820,10 @@ func genC07(r *Run) {
 				codes = append(codes, c)
 			}
 		}
-		if s%2 == 1 {
+		if s%3 == 2 {
+			codes = []byte{82, 254, 253, 81, 83, 1} // the last-written option next to every code an ordering rule could confuse it with
+		}
+		if s%2 == 1 && s%3 != 2 {
 			codes[1], codes[2] = byte(1+r.Rng.Intn(80)), byte(100+r.Rng.Intn(100))
 			if codes[1] == 82 || codes[2] == 82 {
 				codes[1], codes[2] = 3, 200
@@ -938,6 +941,40 @@ func genC07(r *Run) {
 		}
 		validateWire(r, pa, wa, cs)
 		validateWire(r, pb, wb, cs)
+	}
+	// two packets derived from one received request (its option values copied over, then extended): the first keeps
+	// its encoding while the second is built; likewise two option values cut from one buffer
+	for i := 0; i < r.N(100, 5000); i++ {
+		prl := make([]byte, 1+r.Rng.Intn(7))
+		for k := range prl {
+			prl[k] = byte(1 + k)
+		}
+		reqWire := pktOfArgs(r.randPkt(map[byte][]byte{53: {1}, 55: prl, 61: r.Bytes(7), 60: []byte("PXEClient")})).ToBytes()
+		req, err := dhcpv4.FromBytes(reqWire)
+		if err != nil {
+			continue
+		}
+		cs := fmt.Sprintf("request %s", trunc(hx(reqWire[236:]), 200))
+		a, _ := dhcpv4.New(dhcpv4.WithTransactionID(dhcpv4.TransactionID{1, 2, 3, 4}), dhcpv4.WithOptionCopied(req, dhcpv4.OptionParameterRequestList),
+			dhcpv4.WithOptionCopied(req, dhcpv4.OptionClientIdentifier), dhcpv4.WithRequestedOptions(dhcpv4.OptionNTPServers))
+		wa := a.ToBytes()
+		b, _ := dhcpv4.New(dhcpv4.WithTransactionID(dhcpv4.TransactionID{1, 2, 3, 5}), dhcpv4.WithOptionCopied(req, dhcpv4.OptionParameterRequestList),
+			dhcpv4.WithRequestedOptions(dhcpv4.OptionBootfileName), dhcpv4.WithOptionCopied(req, dhcpv4.OptionClassIdentifier))
+		_ = b.ToBytes()
+		evals++
+		if wa2 := a.ToBytes(); !bytes.Equal(wa, wa2) {
+			r.Fail("c07-encoding-changed-by-building-another-packet", cs, "two packets derived from one request: "+firstDiff(hx(wa), hx(wa2)))
+		}
+		if rw := req.ToBytes(); !bytes.Equal(rw, func() []byte { q, _ := dhcpv4.FromBytes(reqWire); return q.ToBytes() }()) {
+			r.Fail("c07-encoding-changed-by-building-another-packet", cs, "the request itself encodes differently after packets were derived from it")
+		}
+		blob := append(append([]byte{}, prl...), []byte("PXEClient")...)
+		c, _ := dhcpv4.New(dhcpv4.WithTransactionID(dhcpv4.TransactionID{1, 2, 3, 6}), dhcpv4.WithGeneric(dhcpv4.OptionParameterRequestList, blob[:len(prl)]),
+			dhcpv4.WithGeneric(dhcpv4.OptionClassIdentifier, blob[len(prl):]), dhcpv4.WithRequestedOptions(dhcpv4.OptionDomainName, dhcpv4.OptionTFTPServerName))
+		if got := c.Options.Get(dhcpv4.OptionClassIdentifier); string(got) != "PXEClient" {
+			r.Fail("c07-value-changed-by-building-another-packet", cs, fmt.Sprintf("class identifier set next to a parameter request list cut from the same buffer reads %q after the list was extended", got))
+		}
+		validateWire(r, c, c.ToBytes(), cs)
 	}
 	// sampled larger sets
 	n := r.N(600, 30000)
